@@ -25,8 +25,10 @@ def run(ctx):
 
     roots, g = util.writer_graph(F)
     fns = util.generic_only(F, g.values())
-    fns = [f for f in fns if f["kind"] != "Closure"]
-    if len(fns) < 20:
+    # closures are analysed as functions of their own too: one handed to an adaptor the engine does not model (fold,
+    # for_each, ...) is otherwise never looked at
+    nclos = sum(1 for f in fns if f["kind"] == "Closure")
+    if len(fns) - nclos < 20:
         ctx.missing("C12.errs", "writer call graph (only %d functions reachable)" % len(fns))
     drop = None
     for imp in F.trait_impls("std::ops::Drop"):
@@ -38,6 +40,11 @@ def run(ctx):
     else:
         ctx.missing("C12.errs", "impl Drop for ShapeWriter")
     n = discipline.check(ctx, F, "C12.errs", fns, whitelist=wl)
+    ctx.rule("C12.accum", "no error is lost between iterations: a `fold` over a Result accumulator hands a failed accumulator on, and "
+                          "an iterator of Results is never consumed by an adaptor that throws its items away (count, last, for_each, "
+                          "nth, max, min, drop); expected instance count on this tree is 0 — the positive control is in the witness crate "
+                          "(thorough tier)", floor=0)
+    ctx.extra["accumulating_consumers_found"] = discipline.check_accumulators(ctx, F, "C12.accum", fns)
     ctx.extra["fallible_sites_writer"] = n
     ctx.extra["writer_graph_functions"] = len(fns)
 
